@@ -449,14 +449,26 @@ impl GarnishNumber for SimpleNumber {
 
     fn bitwise_shift_left(self, rhs: Self) -> Option<Self> {
         Some(match (self, rhs) {
-            (Integer(v1), Integer(v2)) => Integer(v1 << v2),
+            (Integer(v1), Integer(v2)) => {
+                if v2 < 0 || v2 > 31 {
+                    return None;
+                }
+
+                Integer(v1 << v2)
+            }
             _ => return None,
         })
     }
 
     fn bitwise_shift_right(self, rhs: Self) -> Option<Self> {
         Some(match (self, rhs) {
-            (Integer(v1), Integer(v2)) => Integer(v1 >> v2),
+            (Integer(v1), Integer(v2)) => {
+                if v2 < 0 || v2 > 31 {
+                    return None;
+                }
+
+                Integer(v1 >> v2)
+            }
             _ => return None,
         })
     }
